@@ -28,7 +28,7 @@ func init() {
 		Title:       "A failed storage read is reported and never wedges the segment",
 		Technique:   "static analysis: SSA lockset dataflow (must-release on every return), dominance of every Data.Read result use by its error test, go/cfg error-flow walk over all read-reachable functions",
 		Level:       "Static rules; the lock clause is decided: on every path of every function that takes the segment mutex the lock is released before return, so no fault sequence can leave it held. Every one of the Data.Read call sites is shown to use its slice only behind err == nil and every read error is shown to propagate or be explicitly tolerated. Not a verdict on promptness in the sense of time.",
-		Explanation: "LOCK-RELEASE (path-set lockset dataflow over SSA blocks, defer-aware) proves every return of every locking function releases the mutex; NO-CALLBACK-UNDER-LOCK proves nothing re-entrant runs while it is held; READ-CHECKED (dominator tree) proves the slice of each segment.Data.Read is used only on the nil edge of its error test; ERR-FLOW over the functions reachable from the read API proves every error-returning call is accounted for on every path (returned, wrapped, sentinel, sticky field) with one listed exemption; STATE-AFTER-FALLIBLE treats each chunk loader as a transaction on the reader's cache: on every path to a possibly-failing return (path-sensitive over the CFG, helper methods followed into, storage starting to fail between two reads of one call included) either nothing of the cached chunk was touched - field stores, element stores through the doc-value header, the freq/norm reader switched before the location reader - or the cache was declared empty on that path, so a failed load is retried rather than leaving half a chunk that a later call takes for loaded. CACHE-AFTER-CHECK requires that a value from a fallible call is published into a Segment-held cache only on the path where its error was tested nil, so a failed load cannot poison later calls.",
+		Explanation: "LOCK-RELEASE (path-set lockset dataflow over SSA blocks, defer-aware) proves every return of every locking function releases the mutex; NO-CALLBACK-UNDER-LOCK proves nothing re-entrant runs while it is held; READ-CHECKED (dominator tree) proves the slice of each segment.Data.Read is used only on the nil edge of its error test; ERR-FLOW over the functions reachable from the read API proves every error-returning call is accounted for on every path (returned, wrapped, sentinel, sticky field) with one listed exemption; STATE-AFTER-FALLIBLE treats each chunk loader as a transaction on the reader's cache: on every path to a possibly-failing return (path-sensitive over the CFG, helper methods followed into, storage starting to fail between two reads of one call included) either nothing of the cached chunk was touched - field stores, element stores through the doc-value header, the freq/norm reader switched before the location reader - or the cache was declared empty on that path, so a failed load is retried rather than leaving half a chunk that a later call takes for loaded. MEMO-COMMIT proves a remembered key (`if key != last { load }`) is stored only after the fallible loads it stands for, in the same round. CACHE-AFTER-CHECK requires that a value from a fallible call is published into a Segment-held cache only on the path where its error was tested nil, so a failed load cannot poison later calls.",
 		NotCovered:  "promptness in the sense of wall-clock time; panics from corrupt (as opposed to unreadable) data; behaviour of dependencies on failing storage",
 		Uses:        []RuleUse{{"CACHE-AFTER-CHECK", ""}, {"LOCK-RELEASE", ""}, {"NO-CALLBACK-UNDER-LOCK", ""}, {"READ-CHECKED", ""}, {"ERR-FLOW", "READ"}, {"STATE-AFTER-FALLIBLE", ""}, {"MEMO-COMMIT", ""}},
 	})
@@ -197,7 +197,7 @@ func init() {
 		Title:       "Postings iterators navigate correctly under Next/Advance, exclusions and flags",
 		Technique:   "static analysis: SSA agreement rules between the stream writers and the iterator's read and skip paths (per-posting arity, byte-count prefix), flag-guarded decoder use (interprocedural), sticky end of iteration, Count/exclusion shape — structural necessary conditions only",
 		Level:       "Static rules deciding named NECESSARY conditions of navigation: the read path and both skip paths consume exactly what the writer emits per posting in each stream, locations are skipped by the recorded byte count, no flag combination reaches a missing decoder, the 1-hit cursor is consumed on every return, an exhausted cursor is never advanced, Count subtracts the excluded intersection, exclusions are applied into a fresh bitmap. WHICH posting Next/Advance(d) returns for a given history is a relation over runtime cursor values and is NOT decided.",
-		Explanation: "ENTRY-ARITY compares the per-posting shape written by tfEncoder/locEncoder (2 uvarints; byte-count prefix + 4 uvarints per location) with readFreqNormHasLocs, skipFreqNormReadHasLocs, readLocation, the location loop of nextAtOrAfter and the skip in currChunkNext. READER-FLAG-GUARD computes interprocedurally which iterator methods need includeLocs/includeFreqNorm and proves no exported method reaches an unguarded decoder use. ITER-END proves the clean fast path is entered only under postings == nil || postings.postings == ActualBM (boolean abstraction; ReplaceActual can change ActualBM at any time), every return of the 1-hit branch leaves the hit consumed, every Actual.Next() is behind HasNext(), Count subtracts |postings ∩ except| for both encodings, and exclusions are applied as AndNot into a fresh bitmap. REPLAY-COUNT checks that the replay counter of the clean path is reset by comparing chunk numbers of postings, not the loaded chunk. LENPREFIX-AGREE, CHUNK-AGREE (reader side), ONEHIT-AWARE, CACHE-COHERENT and STATE-AFTER-FALLIBLE cover the prefix, chunk index, encoding dispatch and chunk switching the navigation relies on. REUSED-POSTING shows every field of the Posting the iterator reuses is stored in the current call on each path that hands it out. NARROW-GUARD proves a 64-bit argument of an exported method (the Advance target) reaches a narrowing conversion (uint32 for the roaring iterator) only behind a comparison with a constant that fits, through any chain of static calls; CHUNK-START-INCLUSIVE proves a document number is compared with the first number of a chunk only by >= / <; MEMO-PRIMED proves each keyed chunk reload is also taken when nothing has been loaded yet.",
+		Explanation: "ENTRY-ARITY compares the per-posting shape written by tfEncoder/locEncoder (2 uvarints; byte-count prefix + 4 uvarints per location) with readFreqNormHasLocs, skipFreqNormReadHasLocs, readLocation, the location loop of nextAtOrAfter and the skip in currChunkNext. READER-FLAG-GUARD computes interprocedurally which iterator methods need includeLocs/includeFreqNorm and proves no exported method reaches an unguarded decoder use. ITER-END proves the clean fast path is entered only under postings == nil || postings.postings == ActualBM (boolean abstraction; ReplaceActual can change ActualBM at any time), every return of the 1-hit branch leaves the hit consumed, every Actual.Next() is behind HasNext(), Count subtracts |postings ∩ except| for both encodings, and exclusions are applied as AndNot into a fresh bitmap. REPLAY-COUNT checks that the replay counter of the clean path is reset by comparing chunk numbers of postings, not the loaded chunk. LENPREFIX-AGREE, CHUNK-AGREE (reader side), ONEHIT-AWARE, CACHE-COHERENT and STATE-AFTER-FALLIBLE cover the prefix, chunk index, encoding dispatch and chunk switching the navigation relies on. REUSED-POSTING shows every field of the Posting the iterator reuses is stored in the current call on each path that hands it out. NARROW-GUARD proves a 64-bit argument of an exported method (the Advance target) reaches a narrowing conversion (uint32 for the roaring iterator) only behind a comparison with a constant that fits, through any chain of static calls; CHUNK-START-INCLUSIVE proves a document number is compared with the first number of a chunk only by >= / <; MEMO-PRIMED proves each keyed chunk reload is also taken when nothing has been loaded yet; LOCS-IMPLY-FREQNORM proves, by truth table over the values stored, that wherever the two decoder flags of an iterator are set the freq/norm flag is true whenever the location flag is (the has-locations bit lives in the freq/norm stream).",
 		NotCovered:  "which posting is returned by Next/Advance for a given call history, the skip counting across chunks beyond the operands of its reset test (sameChunkNexts arithmetic), lock-step advance of the two cursors under exclusions (values)",
 		Uses:        []RuleUse{{"LOCS-FLAG-AGREE", ""}, {"ENTRY-ARITY", ""}, {"READER-FLAG-GUARD", ""}, {"ITER-END", ""}, {"REPLAY-COUNT", ""}, {"CHUNK-START-INCLUSIVE", ""}, {"NARROW-GUARD", ""}, {"LOCS-IMPLY-FREQNORM", ""}, {"REUSED-POSTING", ""}, {"LENPREFIX-AGREE", ""}, {"CHUNK-AGREE", ""}, {"ONEHIT-AWARE", ""}, {"CACHE-COHERENT", ""}, {"STATE-AFTER-FALLIBLE", ""}},
 	})
